@@ -25,10 +25,6 @@ import (
 
 var c05E2EEntries = []string{"adapter.stream", "simple.stream", "nats.client", "nats.server", "nats.sub", "stomp.sub", "http"}
 
-var e2eSeq uint64
-
-func uniq64() uint64 { return atomic.AddUint64(&e2eSeq, 1) }
-
 // waitFor polls cond up to d.
 func waitFor(d time.Duration, cond func() bool) bool {
 	deadline := time.Now().Add(d)
